@@ -70,8 +70,15 @@ Definition limit_enabled (x : Z) : bool :=
 Definition new_listener (read_limit write_limit : Z) : listener :=
   let from_read := if limit_enabled read_limit then Some (new_limiter read_limit) else None in
   let from_write := if limit_enabled write_limit then Some (new_limiter write_limit) else None in
-  {| rxl := if write_limit_feeds_rx then from_write else from_read;
-     txl := if read_limit_feeds_tx then from_read else from_write |}.
+  (* the local variables rxLimiter / txLimiter *)
+  let vrx := if write_limit_feeds_rx then from_write else from_read in
+  let vtx := if read_limit_feeds_tx then from_read else from_write in
+  (* &Listener{rxLimiter: .., txLimiter: ..} *)
+  let frx := if listener_fields_straight then vrx else vtx in
+  let ftx := if listener_fields_straight then vtx else vrx in
+  (* Accept: &Conn{rxLimiter: l.rxLimiter, txLimiter: l.txLimiter}: what accepted connections see *)
+  {| rxl := if accept_fields_straight then frx else ftx;
+     txl := if accept_fields_straight then ftx else frx |}.
 
 (* net.go Listener.Listen: `if rl, wl := l.ReadLimit, l.WriteLimit; rl > 0 || wl > 0 { ll = ratelimit.NewListener(ll, rl, wl) }`
    None = the listener is not wrapped at all. *)
